@@ -33,7 +33,7 @@ Print Assumptions C14_last_nr.
 (** calcStatusCode computes the schedule (start = 0, startNumber = 0, every pattern good). *)
 Theorem C14_status_spec : forall r loopMS, wf r loopMS -> forall c codes repID n nr,
   startS c = 0 -> startNr c = 0 -> repDuration r < two64 -> Forall (goodCode r) codes -> 0 <= n ->
-  S r n < two63 -> ts r < two32 -> nr = n ->
+  S r n * 1000 < two63 -> ts r < two32 -> nr = n ->
   calcStatusCode r loopMS c codes repID (metaOf r c n nr) = Ok (scheduleCode r codes repID n).
 Proof. exact calcStatusCode_spec. Qed.
 Print Assumptions C14_status_spec.
@@ -43,7 +43,7 @@ Print Assumptions C14_status_spec.
     exactly the answer without the parameter; too early / gone are answered as without it. *)
 Theorem C14_status_number : forall r loopMS, wf r loopMS -> forall c codes repID audio n now base,
   startS c = 0 -> startNr c = 0 -> repDuration r < two64 -> Forall (goodCode r) codes -> codes <> [] ->
-  0 <= n < two32 -> S r n < two63 -> ts r < two32 -> 0 <= now ->
+  0 <= n < two32 -> S r n * 1000 < two63 -> ts r < two32 -> 0 <= now ->
   segAnswer r loopMS c codes repID audio ByNumber n now base =
   timedAnswer (checkTime (E r n) (ts r) now (tsbdS c) (ato c)) (scheduled r codes repID n base).
 Proof. exact segAnswer_number. Qed.
@@ -52,7 +52,7 @@ Print Assumptions C14_status_number.
 (** The same for a video request by $Time$. *)
 Theorem C14_status_time : forall r loopMS, wf r loopMS -> forall c codes repID n now base,
   startS c = 0 -> startNr c = 0 -> repDuration r < two64 -> Forall (goodCode r) codes -> codes <> [] ->
-  0 <= n < two32 -> S r n < two63 -> ts r < two32 -> 0 <= now ->
+  0 <= n < two32 -> S r n * 1000 < two63 -> ts r < two32 -> 0 <= now ->
   segAnswer r loopMS c codes repID None ByTime (S r n) now base =
   timedAnswer (checkTime (E r n) (ts r) now (tsbdS c) (ato c)) (scheduled r codes repID n base).
 Proof. exact segAnswer_time. Qed.
@@ -62,7 +62,7 @@ Print Assumptions C14_status_time.
     reference segment n, i.e. S n <= floor(t * ts / audio timescale) < E n. *)
 Theorem C14_status_audio_time : forall r loopMS, wf r loopMS -> forall c codes repID ats sd t n now base,
   startS c = 0 -> startNr c = 0 -> repDuration r < two64 -> Forall (goodCode r) codes -> codes <> [] ->
-  0 <= n < two32 -> S r n < two63 -> ts r < two32 -> 0 <= now ->
+  0 <= n < two32 -> S r n * 1000 < two63 -> ts r < two32 -> 0 <= now ->
   0 < ats -> 0 < sd -> t mod sd = 0 -> 0 <= t -> t * ts r < two64 ->
   S r n <= t * ts r / ats < E r n ->
   segAnswer r loopMS c codes repID (Some (ats, sd)) ByTime t now base =
